@@ -113,6 +113,9 @@ pub enum FileDiff {
         renamed_from: Option<String>,
         #[serde(default)]
         edit: LineEdit,
+        /// Further one-line changes of the same file, at other lines (several hunks).
+        #[serde(default)]
+        more: Vec<(usize, LineEdit)>,
     },
     /// The diff deletes the file; it does not exist in the tree.
     Deleted,
@@ -506,8 +509,32 @@ pub fn render_start_tag_spelled(b: &BlockSpec, first_sep: char, spelling: u64) -
             s.push_str(&quote_attr(v));
         }
     }
+    // blanks may precede the closing `>`
+    if spelling != 0 {
+        match rng.below(6) {
+            0 => s.push(' '),
+            1 => s.push_str("  "),
+            _ => {}
+        }
+    }
     s.push('>');
     s
+}
+
+/// The end tag; `spelling` != 0 picks one of the spellings the grammar allows (blanks around `/`
+/// and `block`).
+pub fn render_end_tag_spelled(spelling: u64) -> &'static str {
+    if spelling == 0 {
+        return "</block>";
+    }
+    match crate::rng::mix_n(spelling, 77) % 8 {
+        0 => "< /block>",
+        1 => "</ block>",
+        2 => "</block >",
+        3 => "< / block >",
+        4 => "<\t/block>",
+        _ => "</block>",
+    }
 }
 
 /// Where a block ended up in the rendered file.
@@ -607,7 +634,7 @@ fn render_block(
         lines.push(l.clone());
     }
     let end_line = lines.len() + 1;
-    lines.push(comment(leader, block_comments, lines.len(), "</block>"));
+    lines.push(comment(leader, block_comments, lines.len(), render_end_tag_spelled(spell)));
     // content = "\n" + every line strictly between the tags, each followed by "\n"
     let mut content = String::from("\n");
     for l in &lines[start_line..end_line - 1] {
@@ -701,63 +728,56 @@ pub fn render_diff_section(f: &FileSpec, rendered: &RenderedFile, ctx: usize) ->
             }
             Some(s)
         }
-        FileDiff::Insert { line, renamed_from, edit } => {
-            let l = *line;
-            let text = rendered.lines.get(l - 1)?;
+        FileDiff::Insert { renamed_from, .. } => {
+            // the edit script is known by construction: one op per old/new line
             let n = rendered.lines.len();
+            let edits = f.diff.edits();
+            let mut ops: Vec<(char, &str)> = Vec::new();
+            for i in 1..=n {
+                let text = rendered.lines[i - 1].as_str();
+                match edits.iter().find(|e| e.0 == i).map(|e| &e.1) {
+                    Some(LineEdit::Inserted) => ops.push(('+', text)),
+                    Some(LineEdit::Replaced { old }) => {
+                        ops.push(('-', old.as_str()));
+                        ops.push(('+', text));
+                    }
+                    Some(LineEdit::Removed { old }) => {
+                        ops.push(('-', old.as_str()));
+                        ops.push((' ', text));
+                    }
+                    None => ops.push((' ', text)),
+                }
+            }
+            if edits.is_empty() || edits.iter().any(|e| e.0 == 0 || e.0 > n) {
+                return None;
+            }
+            // group the changes into hunks: two changes share a hunk when at most 2*ctx unchanged
+            // lines lie between them
+            let changed: Vec<usize> = (0..ops.len()).filter(|&k| ops[k].0 != ' ').collect();
+            let mut groups: Vec<(usize, usize)> = Vec::new();
+            for &k in &changed {
+                match groups.last_mut() {
+                    Some((_, b)) if k - *b - 1 <= 2 * ctx => *b = k,
+                    _ => groups.push((k, k)),
+                }
+            }
             let span = |start: usize, count: usize| {
                 if count == 1 { format!("{start}") } else { format!("{start},{count}") }
             };
-            let mut hunk;
-            match edit {
-                LineEdit::Inserted | LineEdit::Replaced { .. } => {
-                    let replaced = matches!(edit, LineEdit::Replaced { .. }) as usize;
-                    let before = ctx.min(l - 1);
-                    let after = ctx.min(n - l);
-                    hunk = if before + after + replaced == 0 {
-                        format!("@@ -{},0 +{} @@\n", l - 1, l)
-                    } else {
-                        format!(
-                            "@@ -{} +{} @@\n",
-                            span(l - before, before + after + replaced),
-                            span(l - before, before + after + 1)
-                        )
-                    };
-                    for c in &rendered.lines[l - 1 - before..l - 1] {
-                        hunk.push_str(&format!(" {c}\n"));
-                    }
-                    if let LineEdit::Replaced { old } = edit {
-                        hunk.push_str(&format!("-{old}\n"));
-                    }
-                    hunk.push_str(&format!("+{text}\n"));
-                    for c in &rendered.lines[l..l + after] {
-                        hunk.push_str(&format!(" {c}\n"));
-                    }
-                    if rendered.no_final_newline && l + after == n {
-                        hunk.push_str(NO_NEWLINE_MARKER);
-                    }
-                }
-                LineEdit::Removed { old } => {
-                    // the removed line was line `l` of the old file; new lines l.. follow it
-                    let before = ctx.min(l - 1);
-                    let after = ctx.min(n + 1 - l);
-                    hunk = if before + after == 0 {
-                        format!("@@ -{} +{},0 @@\n", l, l - 1)
-                    } else {
-                        format!(
-                            "@@ -{} +{} @@\n",
-                            span(l - before, before + after + 1),
-                            span(l - before, before + after)
-                        )
-                    };
-                    for c in &rendered.lines[l - 1 - before..l - 1] {
-                        hunk.push_str(&format!(" {c}\n"));
-                    }
-                    hunk.push_str(&format!("-{old}\n"));
-                    for c in &rendered.lines[l - 1..l - 1 + after] {
-                        hunk.push_str(&format!(" {c}\n"));
-                    }
-                    if rendered.no_final_newline && l - 1 + after == n {
+            let mut hunk = String::new();
+            for (a, b) in groups {
+                let from = a.saturating_sub(ctx);
+                let to = (b + ctx).min(ops.len() - 1);
+                let old_before = ops[..from].iter().filter(|o| o.0 != '+').count();
+                let new_before = ops[..from].iter().filter(|o| o.0 != '-').count();
+                let old_count = ops[from..=to].iter().filter(|o| o.0 != '+').count();
+                let new_count = ops[from..=to].iter().filter(|o| o.0 != '-').count();
+                let old_start = if old_count == 0 { old_before } else { old_before + 1 };
+                let new_start = if new_count == 0 { new_before } else { new_before + 1 };
+                hunk.push_str(&format!("@@ -{} +{} @@\n", span(old_start, old_count), span(new_start, new_count)));
+                for (k, (c, t)) in ops[from..=to].iter().enumerate() {
+                    hunk.push_str(&format!("{c}{t}\n"));
+                    if rendered.no_final_newline && from + k == ops.len() - 1 {
                         hunk.push_str(NO_NEWLINE_MARKER);
                     }
                 }
@@ -795,6 +815,21 @@ pub fn render_diff_section(f: &FileSpec, rendered: &RenderedFile, ctx: usize) ->
                 s.push_str(NO_NEWLINE_MARKER);
             }
             Some(s)
+        }
+    }
+}
+
+impl FileDiff {
+    /// Every one-line change of an `Insert` section, by rendered line.
+    pub fn edits(&self) -> Vec<(usize, LineEdit)> {
+        match self {
+            FileDiff::Insert { line, edit, more, .. } => {
+                let mut v = vec![(*line, edit.clone())];
+                v.extend(more.iter().cloned());
+                v.sort_by_key(|e| e.0);
+                v
+            }
+            _ => Vec::new(),
         }
     }
 }
